@@ -40,6 +40,10 @@ type fwdItem struct {
 	AltCode rune
 	AltMods vaxis.ModifierMask
 	Keypad  bool
+	// Locked: the event carries lock modifiers only; it must arrive as the
+	// chord without them
+	Locked bool
+	Want   vaxis.ModifierMask
 }
 
 var fwdSpecials = []struct {
@@ -92,6 +96,15 @@ func fwdUniverse() []fwdItem {
 				mods |= vaxis.ModCtrl
 			}
 			key(sp.name, vaxis.Key{Keycode: sp.code, Modifiers: mods})
+		}
+	}
+	// Caps Lock and Num Lock are no part of a chord: with only those set a
+	// special key is the plain key (and follows the cursor-key mode)
+	for _, sp := range fwdSpecials {
+		for _, lock := range []vaxis.ModifierMask{vaxis.ModCapsLock, vaxis.ModNumLock, vaxis.ModCapsLock | vaxis.ModNumLock} {
+			it := key(sp.name+"(lock on)", vaxis.Key{Keycode: sp.code, Modifiers: lock})
+			it.Want = 0
+			it.Locked = true
 		}
 	}
 	// named C0 keys: plain and with Alt (ESC prefix); Shift+Tab is CSI Z
@@ -347,6 +360,13 @@ func (w *nestedWorld) judge13(i int, it fwdItem, raw string, evs []vaxis.Event) 
 			fail("key/"+keyClass(k), "the key press arrived as a release")
 			return
 		}
+		if it.Locked {
+			k.Modifiers = it.Want
+			if ev.Modifiers&(vaxis.ModShift|vaxis.ModAlt|vaxis.ModCtrl) != 0 {
+				fail("key/lock-modifiers", "the key was pressed with lock modifiers only; it arrived with modifiers %#x", ev.Modifiers)
+				return
+			}
+		}
 		if !ev.Matches(k.Keycode, k.Modifiers) && !(it.AltCode != 0 && ev.Matches(it.AltCode, it.AltMods)) {
 			fail("key/"+keyClass(k), "the event does not match the original chord (Matches(%q, %s) is false)", k.Keycode, strings.TrimSuffix(modString(k.Modifiers), "+"))
 			return
@@ -355,6 +375,7 @@ func (w *nestedWorld) judge13(i int, it fwdItem, raw string, evs []vaxis.Event) 
 		if k.Modifiers == 0 {
 			switch k.Keycode {
 			case vaxis.KeyUp, vaxis.KeyDown, vaxis.KeyLeft, vaxis.KeyRight, vaxis.KeyHome, vaxis.KeyEnd:
+				// (with lock modifiers only this is still the unmodified key)
 				want := "\x1b["
 				if m.DECCKM {
 					want = "\x1bO"
